@@ -47,7 +47,7 @@ func (p *c19) ID() string    { return "C19" }
 func (p *c19) Level() string { return "exploration" }
 func (p *c19) NewPlan() any  { return &C19Plan{} }
 func (p *c19) Rule() string {
-	return "N in 2..16 (quick) / 2..64 (thorough) devices with mixed key types, key exchanges and ciphers run DI, voucher extension, TO0, TO1 and TO2 (with a per-device ping module whose payload is derived from the device identity) concurrently as tasks of the seeded scheduler against ONE node hosting all responders over one store (simstore or sqlite); interleaving at every network event, state-backend method, module callback and verif hook of the device pipeline, plus PRNG-chosen virtual delays; binary built with the Go race detector; oracle: every device succeeds as it does alone (solo baseline of device 0 in a fresh world), its stored replacement voucher agrees with its credential (independent recomputation), module payloads received on either side are its own, no response delivered to a device contains another device's GUID, no deadlock, zero race reports with a library frame; non-trivial = at least two tasks were runnable at some step; distinct = distinct (schedule, N, backend, outcome)"
+	return "N in 2..16 (quick) / 2..64 (thorough) devices with mixed key types, key exchanges and ciphers run DI, voucher extension, TO0, TO1 and TO2 (with a per-device ping module whose payload is derived from the device identity) concurrently as tasks of the seeded scheduler against ONE node hosting all responders over one store (simstore or sqlite); interleaving at every network event, state-backend method, module callback and verif hook of the device pipeline, plus PRNG-chosen virtual delays; in a quarter of the runs the context of device 1's TO2 is cancelled after a seeded number of scheduler steps or exactly at the n-th yield site of a chosen class of the device pipeline; binary built with the Go race detector; oracle: every device succeeds as it does alone (solo baseline of device 0 in a fresh world), its stored replacement voucher agrees with its credential (independent recomputation), module payloads received on either side are its own, no response delivered to a device contains another device's GUID, no deadlock (kernel verdict or all goroutines of the bubble blocked for good), a cancelled call returns, zero race reports whose two accesses are both in go-fdo; non-trivial = at least two tasks were runnable at some step; distinct = distinct (schedule, N, backend, outcome)"
 }
 func (p *c19) DeadlockIsViolation() bool { return true }
 func (p *c19) Exhaustive(string) bool { return false }
@@ -60,7 +60,8 @@ func (p *c19) Components() map[string][]string {
 func (p *c19) Assumptions() []string {
 	return []string{
 		"the in-memory backend serialises its methods with one mutex and thereby adds happens-before edges between sessions at every state access, as any in-memory production backend would; sqlite plans add only database/sql's own synchronisation",
-		"a race report counts only if a go-fdo frame is on one of its stacks; reports with harness frames only are harness defects (exit 2)",
+		"a race report counts only if both racing accesses are made by go-fdo code (or the standard library called from it); a report in which the harness makes one of the accesses, with no library-only pair in the same run, is a harness defect (exit 2)",
+		"runs with a cancellation reach selects with several ready cases, which the Go runtime resolves with its own random source: their event log is not compared between executions, only their verdict",
 		"between two yields a task runs alone, plus the first instructions of goroutines it wakes up",
 	}
 }
